@@ -217,9 +217,14 @@ func c11Process(c *vk.Ctx, r *rand.Rand, round int) bool {
 	var emu sync.Mutex
 	var exchanges []exch
 	nClients := 8 + r.Intn(c.N(8, 24))
-	for i := 0; i < nClients; i++ {
+	// surge clients join only while a reload is in progress: the accept queue of the retained
+	// address is never empty then, so each generation gets connections the moment it starts accepting
+	var reloading atomic.Bool
+	const nSurge = 32
+	for i := 0; i < nClients+nSurge; i++ {
 		wg.Add(1)
 		cr := c.SubRng("c11c", round*64+i)
+		surge := i >= nClients
 		go func() {
 			defer wg.Done()
 			for {
@@ -227,6 +232,10 @@ func c11Process(c *vk.Ctx, r *rand.Rand, round int) bool {
 				case <-stop:
 					return
 				default:
+				}
+				if surge && !reloading.Load() {
+					time.Sleep(500 * time.Microsecond)
+					continue
 				}
 				caseN := nextID(c.Batch)
 				payload := putU64(caseN)
@@ -252,6 +261,9 @@ func c11Process(c *vk.Ctx, r *rand.Rand, round int) bool {
 				emu.Lock()
 				exchanges = append(exchanges, e)
 				emu.Unlock()
+				if surge {
+					continue
+				}
 				time.Sleep(time.Duration(cr.Intn(4)) * time.Millisecond)
 			}
 		}()
@@ -359,6 +371,7 @@ func c11Process(c *vk.Ctx, r *rand.Rand, round int) bool {
 		}
 		c.Progress("C11 round=%d reload %d/%d conflict=%v", round, k, K, conflict)
 		w := window{a: time.Now()}
+		reloading.Store(true)
 		burst := !conflict && k%4 == 2
 		if burst {
 			// two signals in quick succession: the reloads must not run into each other (the second may
@@ -373,6 +386,7 @@ func c11Process(c *vk.Ctx, r *rand.Rand, round int) bool {
 			srv.WaitLog([]string{"Stopped all listeners for running config", "Failed to update server"}, 700*time.Millisecond)
 			c.Count("sighup_bursts", 1)
 		}
+		reloading.Store(false)
 		w.b = time.Now()
 		windows = append(windows, w)
 		if conflict && err == nil {
@@ -695,7 +709,7 @@ func init() {
 	vk.Register(&vk.Spec{
 		ID:    "C11",
 		Level: "exploration",
-		Rule: "real binary (hook H4 keeps both generations live for 80..230 ms per reload): 5..50 consecutive SIGHUP reloads (identical file, keys added/removed, other listeners added/removed, one reload removes the key of two long-lived relays) while 8..32 clients run short authenticated exchanges against the retained TCP address, one UDP sender streams datagrams with unique ids to the retained UDP address, and four long-lived relays (idle, idle under the removed key, mid-transfer, half-closed by the target) stay open; then quiet reloads (no traffic; the first datagram and connection afterwards must be served); replay history 0/500/10000; " +
+		Rule: "real binary (hook H4 keeps both generations live for 80..230 ms per reload): 5..50 consecutive SIGHUP reloads (identical file, keys added/removed, other listeners added/removed, one reload removes the key of two long-lived relays) while 8..32 clients (plus 32 surge clients during every reload window) run short authenticated exchanges against the retained TCP address, one UDP sender streams datagrams with unique ids to the retained UDP address, and four long-lived relays (idle, idle under the removed key, mid-transfer, half-closed by the target) stay open; then quiet reloads (no traffic; the first datagram and connection afterwards must be served); replay history 0/500/10000; " +
 			"oracle over the exchange log with reload windows [SIGHUP sent, completion marker], /metrics status deltas, target-side datagram ids, relay continuity; in-process: StreamServe listeners closed while relays of all three half-close modes are paused mid-stream; class = (reload count bucket, client count bucket, overlap)",
 		Assumptions: []string{"an exchange overlapping a reload window may legitimately end as 'authenticated, dial cancelled' (clean EOF, zero bytes, ERR_CONNECT): StreamServe cancels handler contexts when its listener closes", "UDP replies are only checked for duplicates (the old generation's associations expire at hand-over)"},
 		Batches:     func(t string) int { return map[string]int{"quick": 4, "thorough": 12}[t] },
